@@ -749,7 +749,7 @@ for _k in ('xg', 'xc', 'xa'):
             HANDLER_BODIES[_k].append(_name)
             _src.append("%s %s(L, H, box):\n    try:\n        raise KeyError('u:outer')\n    except KeyError:\n%s%s        L('resumed')\n%s%s\n"
                         % (_HEAD[_k], _name, _NESTED[_n], _SUSPEND[_k], _AFTER[_a], _TAIL[_k]))
-            BODY_CLASS[_name] = 'handler/%s/%s' % (_n, _a)
+            BODY_CLASS[_name] = 'suspend-in-handler'
 BODY_SRC = BODY_SRC + '\n' + ''.join(_src)
 SYNC += HANDLER_BODIES['xg']
 CORO += HANDLER_BODIES['xc']
